@@ -11,7 +11,7 @@ from vmc import refmodel, space
 from vmc.engine import guarded
 
 ID = 'C15'
-ALPHAS = {'FULL': space.FULL, 'FULL_NO3': space.FULL_NO3, 'S4': space.S4 + space.U}
+ALPHAS = {'REQ': space.alphabet('AND', 'XOR', 'GT', 'NOT'), 'FULL': space.FULL, 'FULL_NO3': space.FULL_NO3, 'S4': space.S4 + space.U}
 
 
 def plan(tier):
@@ -24,6 +24,10 @@ def plan(tier):
         for tk in space.tasks(n, k, ALPHAS[a], split):
             tk.update(kind='circ', alpha=a)
             t.append(tk)
+    for n, k, a, split in [(2, 3, 'REQ', 2)] + ([(3, 3, 'REQ', 2), (2, 4, 'REQ', 2)] if tier == 'thorough' else []):
+        for tk in space.tasks(n, k, ALPHAS[a], split):
+            tk.update(kind='req', alpha=a)
+            t.append(tk)
     return t
 
 
@@ -33,7 +37,7 @@ def describe(tier):
         'circuits: every circuit of F(n,k,A) x all 3^n partial assignments x {absent, explicit Undefined} x '
         '{evaluate_full_circuit, evaluate_circuit (default outputs = all sinks, and outputs=[g] for every g), '
         'evaluate_circuit_outputs}; soundness against all completions, monotonicity along every covering pair '
-        'p < q, definedness under total assignments; the same after an evaluation followed by a label exchange of two gates (renames only). distinct = distinct (definedness pattern) outcomes.',
+        'p < q, definedness under total assignments; the same after an evaluation followed by a label exchange of two gates (renames only); evaluate_circuit(outputs=L) for every ordered list L of up to three distinct gates (and every permutation of all gates with an input inserted at every position), evaluate(list) and evaluate_at(list, i) with Undefined entries on a circuit whose outputs interleave gates and inputs away from their input positions (every family, plus F(2,3,{AND,XOR,GT,NOT}); thorough F(3,3,.) and F(2,4,.)). distinct = distinct (definedness pattern) outcomes.',
         'bounds': {
             'quick': 'F(1..2,<=2,FULL), F(3,1,FULL), F(2,1,4-ary)',
             'thorough': '+ F(3,2,FULL), F(2,3,FULL\\S3), F(1,3,FULL), F(3,1,4-ary)',
@@ -273,13 +277,144 @@ def check_after_relabel(n, gates, acc):
                     return
 
 
+def _comp_mask(p, iv, mask):
+    comp = mask
+    for i, v in enumerate(p):
+        if v == 1:
+            comp &= iv[i]
+        elif v == 0:
+            comp &= iv[i] ^ mask
+    return comp
+
+
+def check_requests(n, gates, acc):
+    """evaluate_circuit(outputs=<every ordered list of up to three distinct gates, and every permutation of all
+    gates with x0 inserted at every position>), evaluate(list) and evaluate_at(list, i) on a circuit whose
+    outputs interleave gates with inputs at positions different from their input positions."""
+    from cirbo.core.circuit.operators import Undefined
+
+    k = len(gates)
+    labs = space.labels(n, k)
+    net = space.spec_net(n, gates)
+    ref = net.tables()
+    mask = (1 << (1 << n)) - 1
+    iv = refmodel.input_vectors_cached(n)
+    glabs = labs[n:]
+    outs_idx = [n + k - 1] + list(range(n - 1, -1, -1)) + [n] + ([0] if n else [])
+    c = space.build(n, gates, tuple(outs_idx))
+    out_labs = [labs[i] for i in outs_idx]
+    cones = {l: net.reach_back([l]) for l in labs}
+    requests = []
+    for m in range(1, min(3, k) + 1):
+        requests.extend(itertools.permutations(glabs, m))
+    if n and k <= 3:
+        for perm in itertools.permutations(glabs):
+            for pos in range(k + 1):
+                requests.append(perm[:pos] + (labs[0],) + perm[pos:])
+    acc.states += 1
+    results = {}
+    st = (False, True, Undefined)
+    for p in itertools.product(range(3), repeat=n):
+        comp = _comp_mask(p, iv, mask)
+
+        def sound(l, v):
+            r = ref[l] & comp
+            return (r == comp) if v else (r == 0)
+
+        a = {labs[i]: bool(v) for i, v in enumerate(p) if v != 2}
+        total = 2 not in p
+        for req in requests:
+            acc.transitions += 1
+            acc.traces += 1
+            case = lambda: {**space.spec_json(n, gates), 'partial': ['FTU'[v] for v in p], 'requested': list(req)}  # noqa: E731
+            ok, res = guarded(acc, 'evaluate_circuit', case, c.evaluate_circuit, dict(a), outputs=list(req))
+            if not ok:
+                continue
+            need = set().union(*(cones[l] for l in req))
+            bad = False
+            for l, v in res.items():
+                if _isb(v):
+                    if l in ref and not sound(l, v):
+                        acc.violation('evaluate_circuit/unsound', case, f'outputs={list(req)}: gate {l} reported {v}')
+                        bad = True
+                        break
+                elif not (v == Undefined):
+                    acc.violation('evaluate_circuit/not-a-gate-state', case, f'{l}: {v!r}')
+                    bad = True
+                    break
+                elif total and l in need:
+                    acc.violation('evaluate_circuit/undefined-under-total-assignment', case, f'outputs={list(req)}: gate {l}')
+                    bad = True
+                    break
+            if not bad:
+                for l in req:
+                    if l not in res:
+                        acc.violation('evaluate_circuit/requested-gate-missing', case, f'{l}')
+                        break
+            results[(req, p)] = res
+        seq = [st[v] for v in p]
+        case = lambda: {**space.spec_json(n, gates), 'outputs': outs_idx, 'partial': ['FTU'[v] for v in p], 'entry': 'evaluate / evaluate_at'}  # noqa: E731
+        acc.transitions += 1 + len(out_labs)
+        ok, res = guarded(acc, 'evaluate', case, c.evaluate, list(seq))
+        vals = [res] if ok else []
+        if ok and len(res) != len(out_labs):
+            acc.violation('evaluate/wrong-length', case, f'{res!r}')
+            vals = []
+        ats = []
+        for j in range(len(out_labs)):
+            ok2, v = guarded(acc, 'evaluate_at', case, c.evaluate_at, list(seq), j)
+            ats.append(v if ok2 else None)
+        for name, row in [('evaluate', vals[0] if vals else None), ('evaluate_at', ats)]:
+            if row is None:
+                continue
+            for j, v in enumerate(row):
+                l = out_labs[j]
+                if _isb(v):
+                    if not sound(l, v):
+                        acc.violation(f'{name}/unsound', case, f'output #{j} ({l}) reported {v}')
+                        break
+                elif v is None:
+                    continue
+                elif not (v == Undefined):
+                    acc.violation(f'{name}/not-a-gate-state', case, f'#{j}: {v!r}')
+                    break
+                elif total:
+                    acc.violation(f'{name}/undefined-under-total-assignment', case, f'output #{j} ({l})')
+                    break
+            results[(name, p)] = dict(enumerate(row))
+    for (entry, p), res in results.items():
+        for pos in range(n):
+            if p[pos] != 2:
+                continue
+            for b in (0, 1):
+                q = p[:pos] + (b,) + p[pos + 1:]
+                rq = results.get((entry, q))
+                if rq is None:
+                    continue
+                for l, v in res.items():
+                    if _isb(v) and rq.get(l) is not v:
+                        site = entry if isinstance(entry, str) else 'evaluate_circuit'
+                        acc.violation(
+                            f'{site}/non-monotone',
+                            lambda: {**space.spec_json(n, gates), 'outputs': outs_idx, 'requested': list(entry) if not isinstance(entry, str) else entry,
+                                     'p': ['FTU'[v_] for v_ in p], 'q': ['FTU'[v_] for v_ in q]},
+                            f'{entry}: {l}: {v} under p but {rq.get(l)!r} under q',
+                        )
+                        break
+
+
 def run_task(task, acc):
     if task['kind'] == 'ops':
         return check_ops(acc)
     alpha = ALPHAS[task['alpha']]
+    if task['kind'] == 'req':
+        for gates in space.enum_gates(task['n'], task['k'], alpha, space.prefix_from_task(task)):
+            check_requests(task['n'], gates, acc)
+        return
     for gates in space.enum_gates(task['n'], task['k'], alpha, space.prefix_from_task(task)):
         check_circuit(task['n'], gates, acc)
         check_after_relabel(task['n'], gates, acc)
+        check_requests(task['n'], gates, acc)
 
 
 def replay(case, acc):
@@ -289,5 +424,7 @@ def replay(case, acc):
         n, gates, _ = space.spec_from_json(case)
         if 'scenario' in case:
             return check_after_relabel(n, gates, acc)
+        if 'requested' in case or 'entry' in case:
+            return check_requests(n, gates, acc)
         return check_circuit(n, gates, acc)
     return check_ops(acc)
